@@ -27,10 +27,18 @@ ParalClauses ==
        T == ParalTetrahedra(Rec.ec, c)
        efs == AsSeq(Rec.efs)  got == AsSeq(Rec.got8)  n == Rec.der  tol == Rec.tol8  N == Len(efs)
        all == {Rec.ec} \cup {c[x][y][z] : x \in 1..2, y \in 1..2, z \in 1..2}
-       Sum8(k) == RSumInt([t \in 1..12 |-> RFloor8(ClosedOcc(T[t], efs[k], n))])
+       TO == ParalTetrahedraOther(Rec.ec, c)
+       F8(TT, f, k) == RFloor8(ClosedOcc(TT[2 * f - 1], efs[k], n)) + RFloor8(ClosedOcc(TT[2 * f], efs[k], n))
+       IMin(a, b) == IF a <= b THEN a ELSE b
+       IMax(a, b) == IF a <= b THEN b ELSE a
+       Lo8(k) == RSumInt([f \in 1..6 |-> IMin(F8(T, f, k), F8(TO, f, k))])
+       Hi8(k) == RSumInt([f \in 1..6 |-> IMax(F8(T, f, k), F8(TO, f, k))])
    IN
-   [ admissible |-> \A k \in 1..N : \A t \in 1..12 : NotOnDegenerateCorner(efs[k], T[t]) /\ WellDefined(efs[k], T[t], n),
-     mean_of_twelve |-> \A k \in 1..N : Near(12 * got[k], Sum8(k), 12 * (tol + 1)),
+   [ admissible |-> \A k \in 1..N : \A t \in 1..12 : /\ NotOnDegenerateCorner(efs[k], T[t]) /\ WellDefined(efs[k], T[t], n)
+                                                      /\ NotOnDegenerateCorner(efs[k], TO[t]) /\ WellDefined(efs[k], TO[t], n),
+     (* mean of twelve tetrahedra, whichever diagonal splits each face: between the face-wise smaller and larger sums *)
+     within_face_split_bounds |-> \A k \in 1..N : /\ 12 * got[k] >= Lo8(k) - 12 * (tol + 1)
+                                                 /\ 12 * got[k] <= Hi8(k) + 12 * (tol + 1),
      unit_range |-> n = 0 => \A k \in 1..N : got[k] >= -tol /\ got[k] <= E8 + tol,
      monotone |-> n = 0 => \A k \in 1..(N - 1) : efs[k] <= efs[k + 1] => got[k] <= got[k + 1] + 2 * tol,
      outside |-> \A k \in 1..N : /\ efs[k] < Min(all) => got[k] = 0
@@ -43,14 +51,18 @@ GroupsClauses ==
        out == [j \in 1..Len(Rec.out) |-> <<Rec.out[j][1], Rec.out[j][2], AsSeq(Rec.out[j][3])>>]
        Exact(b, x) == CASE n = -1 -> RSub(ROne, ClosedOcc(cor[b], x, 0)) [] OTHER -> ClosedOcc(cor[b], x, n)
        G == AllBandGroups(Exact, ec, cor, efs, n, Rec.th, Rec.kr)
+       PerBand8(o, b, k) == LET J == {j \in 1..Len(o) : o[j][1] < b /\ b <= o[j][2]} IN
+                            IF J = {} THEN 0 ELSE o[CHOOSE j \in J : TRUE][3][k]
        Total8(k) == RSumInt([j \in 1..Len(out) |-> (out[j][2] - out[j][1]) * out[j][3][k]])
        ExactTotal8(k) == RSumInt([b \in 1..NBands |-> RFloor8(Exact(b, efs[k]))])
    IN
    [ admissible |-> /\ BandsOrderedAtCorners(ec, cor)
                     /\ \A b \in 1..NBands : \A k \in 1..N : NotOnDegenerateCorner(efs[k], cor[b]) /\ WellDefined(efs[k], cor[b], IF n < 0 THEN 0 ELSE n),
-     same_groups |-> {<<out[j][1], out[j][2]>> : j \in 1..Len(out)} = {<<G[j][1], G[j][2]>> : j \in 1..Len(G)} /\ Len(out) = Len(G),
-     group_weights |-> \A j \in 1..Len(out) : \A g \in 1..Len(G) : (out[j][1] = G[g][1] /\ out[j][2] = G[g][2]) =>
-                          \A k \in 1..N : Near(out[j][3][k], RFloor8(G[g][3][k]), tol + 1),
+     (* per band: the weight of the listed group that contains the band (0 if none) is the mean of the exact weights over
+        the degenerate group of the band; how the list is cut into groups is not compared *)
+     per_band_weights |-> \A b \in 1..NBands : \A k \in 1..N :
+                             Near(PerBand8(out, b, k), RFloor8(PerBandWeight(G, b, k)), tol + 1),
+     whole_degenerate_groups |-> UnionsOfDegenerateGroups(out, ec, Rec.th, Rec.kr),
      disjoint |-> GroupsDisjoint(out),
      complete |-> n \in {-1, 0, 1} => \A k \in 1..N : Near(Total8(k), ExactTotal8(k), NBands * (tol + 1)) ]
 Clauses == CASE Rec.fn = "tetra" -> TetraClauses
